@@ -52,6 +52,13 @@ def cases_for(prop, tier):
         for v in (['', 's', 'sws'] + (['ss', 'sf', 'ssss'] if thorough else [])):
             yield {'stack': 'get', 'vec': v, 'pending': True}
         yield {'stack': 'get', 'vec': 'ss', 'pending': False}
+        yield {'stack': 'get', 'vec': 'sw', 'pending': True, 'twice': True}
+    elif prop == 'C20':
+        yield {'stack': 'same-uid', 'n': 2}
+        if thorough:
+            yield {'stack': 'same-uid', 'n': 3}
+        yield {'stack': 'rq-repeat', 'times': 3}
+        yield {'stack': 'reconfigure'}
     elif prop == 'C17':
         for v in ('ok', 'fail', 'mixed', 'ehe'):
             yield {'stack': 'commit', 'outcome': v}
@@ -242,6 +249,7 @@ def make(case):
                 def on_receive_store(self, context, ds):
                     i = len([x for x in log if x[0] == 'client-store'])
                     log.append(('client-store', i))
+                    i %= len(vec)
                     if vec[i] == 'f':
                         raise exceptions.EventHandlingError('cannot keep it')
                     return statuses.Status(OUT[vec[i]], None)
@@ -250,8 +258,9 @@ def make(case):
             def body(asce):
                 got = []
                 results['get'] = got
-                for c, d in asce.get_scu(GET)(dsgen.make('query'), 41):
-                    got.append((str(c.sop_class), dsgen.enc(d, IMPL)))
+                for rep in range(2 if case.get('twice') else 1):     # a second retrieve on the same association
+                    for c, d in asce.get_scu(GET)(dsgen.make('query'), 41 + rep):
+                        got.append((str(c.sop_class), dsgen.enc(d, IMPL)))
             sched.spawn(run_client(body, cae, {'aet': 'QR', 'address': 'srv', 'port': 104}), 'client')
 
         elif kind == 'commit':
@@ -309,9 +318,147 @@ def make(case):
                     got.append(int(asce.get_scu(CT)(d, 62 + i)))
                 got.append(int(asce.get_scu(VERIF)(69)))
             sched.spawn(run_client(body, cae, {'aet': 'SCP', 'address': 'srv', 'port': 104}), 'client')
+        elif kind == 'same-uid':
+            # n clients store the SAME SOP instance (own content each) into one directory-backed StorageAE at the same time
+            import tempfile, os
+            tmp = tempfile.mkdtemp(prefix='vp_stack_', dir=os.environ.get('VP_TMP') or None)
+            results['tmpdir'] = tmp
+            fs_points(pynetdicom2)
+
+            class Archive(pynetdicom2.StorageAE):
+                def on_receive_store(self, context, ds):
+                    pos = ds.tell()
+                    e3.cur().point('handler.store')        # the application takes its time before it reads the file
+                    raw = ds.read()
+                    ds.seek(pos)
+                    log.append(('stored', getattr(ds, 'name', None), raw))
+                    return statuses.SUCCESS
+            arch = Archive(tmp, 'SCP', 0, [IMPL], 16384)
+            arch.server_close()
+            arch.add_scp(sopclass.storage_scp)
+            net.listen(('srv', 104), e3.serve_ae(arch))
+            results['sent'] = {}
+            results['clients'] = {}
+            for j in range(case['n']):
+                def client(j=j):
+                    L = 'ABC'[j]
+                    cae = applicationentity.ClientAE('SCU' + L, [IMPL], 16384).add_scu(sopclass.storage_scu, [CT])
+                    d = dsgen.make(('pad', 40 + 20 * j), j, sop_class=CT, inst='1.2.5.1')
+                    d.PatientName = 'Client^' + L
+                    results['sent'][L] = dsgen.enc(d, IMPL)
+                    try:
+                        with cae.request_association({'aet': 'SCP', 'address': 'srv', 'port': 104}) as asce:
+                            st = asce.get_scu(CT)(d, 80 + j)
+                        results['clients'][L] = int(st)
+                    except exceptions.NetDICOMError as exc:
+                        results['clients'][L] = '%s: %s' % (type(exc).__name__, exc)
+                sched.spawn(client, 'client-' + 'ABC'[j])
+            results['client'] = 'ok'
+
+        elif kind == 'rq-repeat':
+            # one entity (with provider services, so that role selection is proposed) requests several associations one after
+            # the other from ONE remote-AE configuration dictionary that carries extra user information
+            from pynetdicom2 import userdataitems
+            import copy
+
+            def never(asce, ctx, msg):
+                raise AssertionError('not used')
+            never.sop_classes = [CT]
+            srv = assoc.make_ae('SCP', [IMPL], 16384, [sopclass.verification_scp, never])
+            net.listen(('srv', 104), e3.serve_ae(srv))
+            def ct_scp(asce, ctx, msg):
+                return sopclass.storage_scp(asce, ctx, msg)
+            ct_scp.sop_classes = [CT, MR]
+            ent = assoc.make_ae('ENT', [IMPL], 16384, [ct_scp])
+            ent.add_scu(sopclass.verification_scu).add_scu(sopclass.storage_scu, [CT])
+            remote = {'aet': 'SCP', 'address': 'srv', 'port': 104,
+                      'user_data': [userdataitems.ImplementationVersionNameSubItem('VP-TEST')]}
+            results['config_before'] = repr(sorted((k, repr(v)) for k, v in remote.items()))
+
+            def run():
+                sts = []
+                results['echo'] = sts
+                try:
+                    for i in range(case['times']):
+                        with ent.request_association(remote) as asce:
+                            sts.append(int(asce.get_scu(VERIF)(90 + i)))
+                    results['client'] = 'ok'
+                except exceptions.NetDICOMError as exc:
+                    results['client'] = '%s: %s' % (type(exc).__name__, exc)
+                results['config_after'] = repr(sorted((k, repr(v)) for k, v in remote.items()))
+            sched.spawn(run, 'client')
+
+        elif kind == 'reconfigure':
+            # while an association request of an entity is in flight, another thread re-purposes the entity for its next job
+            # (new context table); the association in flight must stay what it negotiated
+            srv = assoc.make_ae('SCP', [IMPL], 16384, [sopclass.verification_scp, sopclass.qr_find_scp])
+            net.listen(('srv', 104), e3.serve_ae(srv))
+            cae = applicationentity.ClientAE('SCU', [IMPL], 16384).add_scu(sopclass.verification_scu)
+            def run():
+                try:
+                    with cae.request_association({'aet': 'SCP', 'address': 'srv', 'port': 104}) as asce:
+                        results['accepted'] = sorted((k, str(v.sop_class)) for k, v in asce.accepted_contexts.items())
+                        results['echo'] = int(asce.get_scu(VERIF)(95))
+                    results['client'] = 'ok'
+                except exceptions.NetDICOMError as exc:
+                    results['client'] = '%s: %s' % (type(exc).__name__, exc)
+
+            def reconfigure():
+                # ... once the association request is on the wire
+                sc = e3.cur()
+                sc.point('admin.wait', cond=lambda: any(bytes(d[:1]) == b'\x01' for _, d in net.wire), deadline=sc.now + 5)
+                with cae.lock:
+                    cae.context_def_list = {}       # the proposals of the next job start from context id 1 again
+                cae.add_scu(sopclass.qr_find_scu)
+                results['reconfigured'] = True
+            sched.spawn(run, 'client')
+            sched.spawn(reconfigure, 'admin')
         else:
             raise common.HarnessError('unknown stack scenario %r' % kind)
     return scenario
+
+
+def fs_points(pkg):
+    """Check-then-act on the file system is a scheduling decision too: pynetdicom2/__init__.py looks a name up and then creates
+    it.  Give the explorer a point before each of the two steps (only inside an execution, only in fine mode)."""
+    import os as _os
+    import types
+    if getattr(pkg, '_vp_fs_points', False):
+        return
+    if not hasattr(pkg, 'os'):
+        raise common.HarnessError('pynetdicom2/__init__.py no longer uses os.path: file-system points need re-anchoring')
+
+    def pt(label):
+        sc = e3.Sched.current
+        if sc is not None and sc.fine and sc.owns_current_thread():
+            sc.point(label)
+
+    def exists(path):
+        pt('fs.exists')
+        return _os.path.exists(path)
+
+    def open_(*a, **k):
+        pt('fs.open')
+        return open(*a, **k)
+    path = types.SimpleNamespace(**{k: getattr(_os.path, k) for k in dir(_os.path) if not k.startswith('__')})
+    path.exists = exists
+    shim = types.SimpleNamespace(**{k: getattr(_os, k) for k in dir(_os) if not k.startswith('__')})
+    shim.path = path
+
+    def os_open(*a, **k):
+        pt('fs.create')
+        return _os.open(*a, **k)
+    shim.open = os_open
+    pkg.os = shim
+    pkg.open = open_
+    pkg._vp_fs_points = True
+
+
+def _cleanup(out):
+    d = out.results.get('tmpdir')
+    if d:
+        import shutil
+        shutil.rmtree(d, ignore_errors=True)
 
 
 def _fmt_find(items):
@@ -399,17 +546,21 @@ def judge(case, out):
         vec = case['vec']
         n = len(vec)
         got = r.get('get', [])
+        reps = 2 if case.get('twice') else 1
         kept = [i for i in range(n) if vec[i] != 'f']
-        exp_all = [r['insts'][i][1] for i in range(n)]
-        exp_kept = [r['insts'][i][1] for i in kept]
+        exp_all = [r['insts'][i][1] for i in range(n)] * reps
+        exp_kept = [r['insts'][i][1] for i in kept] * reps
         gd = [d for _, d in got]
         if gd != exp_all and gd != exp_kept:
             viol.append((sig + ':instances', 'caller was handed %d instances %r, provider sent %d (%s)' % (
                 len(gd), [exp_all.index(d) if d in exp_all else '?' for d in gd], n, where)))
         rsps = [x for x in log if x[0] == 'store-rsp']
-        exp_r = [('store-rsp', i, 'CStoreRSPMessage', True, 700 + i, r['insts'][i][0], OUT[vec[i]] if vec[i] != 'f' else None) for i in range(n)]
+        exp_r = [('store-rsp', i, 'CStoreRSPMessage', True, 700 + i, r['insts'][i][0], OUT[vec[i]] if vec[i] != 'f' else None) for i in range(n)] * reps
         bad = [(g, e) for g, e in zip(rsps, exp_r) if g[:6] != e[:6] or (e[6] is not None and g[6] != e[6]) or
                (e[6] is None and g[6] in (0, 0xB000, 0xFF00, 0xFF01))]
+        n *= reps
+        if len([x for x in log if x[0] == 'get-rq']) != reps:
+            viol.append((sig + ':requests', 'provider saw %d C-GET requests, %d were issued (%s)' % (len([x for x in log if x[0] == 'get-rq']), reps, where)))
         if len(rsps) != n or bad:
             viol.append((sig + ':store-responses', 'sub-operation responses %r, expected %r (%s)' % (rsps, exp_r, where)))
         if len([x for x in log if x[0] == 'client-store']) != n:
@@ -435,6 +586,47 @@ def judge(case, out):
             bad = [] if outcome == 'ok' else [(a, b, 0x0112) for a, b in (uids if outcome == 'fail' else uids[1:])]
             if len(rsp) != 1 or rsp[0][1:] != ('1.2.7.99', ok, bad):
                 viol.append((sig + ':report', 'modality application got reports %r, expected one (%r, %r, %r) (%s)' % (rsp, '1.2.7.99', ok, bad, where)))
+    elif kind == 'same-uid':
+        sent = r['sent']
+        stored = [x for x in log if x[0] == 'stored']
+        for L, st in sorted(r['clients'].items()):
+            if st != 0:
+                viol.append((sig + ':status', 'client %s got %r (%s)' % (L, st, where)))
+        seen = [x[2] for x in stored]
+        for L, raw in sorted(sent.items()):
+            hits = [x for x in seen if x.endswith(raw)]
+            if len(hits) != 1:
+                others = [M for M in sent if M != L and any(x.endswith(sent[M]) for x in seen)]
+                viol.append((sig + ':handler-content', "the data set of client %s reached the application %d times (files read by the handler: %r bytes; "
+                             "other clients' content seen: %r) (%s)" % (L, len(hits), [len(x) for x in seen], others, where)))
+        import os
+        names = sorted(os.listdir(r['tmpdir'])) if os.path.isdir(r['tmpdir']) else []
+        contents = [open(os.path.join(r['tmpdir'], nm), 'rb').read() for nm in names]
+        for L, raw in sorted(sent.items()):
+            if sum(1 for c in contents if c.endswith(raw)) != 1:
+                viol.append((sig + ':files', 'after %d stores of one instance UID the directory holds %r; the content of client %s is in %d of them (%s)' % (
+                    len(sent), [(nm, len(c)) for nm, c in zip(names, contents)], L, sum(1 for c in contents if c.endswith(raw)), where)))
+    elif kind == 'rq-repeat':
+        from . import ref_pdu
+        if r.get('echo') != [0] * case['times']:
+            viol.append((sig + ':status', 'echo statuses %r (%s)' % (r.get('echo'), where)))
+        if r.get('config_after') != r['config_before']:
+            viol.append((sig + ':config-mutated', "the caller's remote-AE configuration was changed by the library: %s -> %s (%s)" % (
+                r['config_before'][:300], r.get('config_after', '')[:300], where)))
+        rqs = []
+        per = {}
+        for name, data in out.wire:
+            per.setdefault(name, bytearray()).extend(data)
+        for name in sorted(per):
+            pdus, _ = ref_pdu.split_stream(bytes(per[name]))
+            rqs += [p for p in pdus if p[:1] == b'\x01']
+        if len(rqs) != case['times'] or any(x != rqs[0] for x in rqs):
+            viol.append((sig + ':request-differs', 'the %d association requests built from one configuration have lengths %r (all must be identical) (%s)' % (
+                len(rqs), [len(x) for x in rqs], where)))
+    elif kind == 'reconfigure':
+        if r.get('accepted') != [(1, VERIF)] or r.get('echo') != 0:
+            viol.append((sig + ':in-flight-association', 'the association requested before the entity was reconfigured has contexts %r, echo status %r '
+                         '(proposed: verification on context 1) (%s)' % (r.get('accepted'), r.get('echo'), where)))
     elif kind == 'echo-store':
         n = case['n']
         if r.get('status') != [0] * (n + 2):
@@ -452,7 +644,9 @@ def run_case(case, prefix_sig=''):
     sc = make(case)
     if 'schedule' in case:
         out = e3.execute(sc, case['schedule'] or [], low=case.get('low') or (), fine=True)
-        return {'viol': [(prefix_sig + s, m) for s, m in judge(case, out)], 'case': case}
+        v = judge(case, out)
+        _cleanup(out)
+        return {'viol': [(prefix_sig + s, m) for s, m in v], 'case': case}
     viol = []
     first = [None]
     stats_tot = {'schedules': 0, 'decisions': 0, 'capped': False, 'families': 0, 'outcomes': set()}
@@ -460,7 +654,8 @@ def run_case(case, prefix_sig=''):
     def runfam(low, bound, count_all, max_exec):
         def on(out):
             v = judge(dict(case, low=list(low)), out)
-            stats_tot['outcomes'].add(repr(sorted((k, repr(x)) for k, x in out.results.items() if k != 'log')))
+            _cleanup(out)
+            stats_tot['outcomes'].add(repr(sorted((k, repr(x)) for k, x in out.results.items() if k not in ('log', 'tmpdir'))))
             if v and first[0] is None:
                 first[0] = (list(out.choices), list(low))
             viol.extend(v)
@@ -470,6 +665,8 @@ def run_case(case, prefix_sig=''):
         else:
             out0, roots = e3.first_level(sc, bound, count_all=count_all, low=low, fine=True)
             sts = []
+            if part[0] != 0:
+                _cleanup(out0)
             if part[0] == 0:
                 on(out0)
                 sts.append({'executions': 1, 'decisions': len(out0.points), 'capped': False})
@@ -481,6 +678,7 @@ def run_case(case, prefix_sig=''):
             stats_tot['capped'] = stats_tot['capped'] or st['capped']
         stats_tot['families'] += 1
     base = e3.execute(sc, [], fine=True)
+    _cleanup(base)
     names = [t[0] for t in base.threads]
     fam = case.get('family')        # None: all families in this call; 0: the preemption-bounded one; i>0: starve thread i-1
     if fam in (None, 0):
